@@ -30,6 +30,17 @@ class RefError(Exception):
     pass
 
 
+class Odd(int):
+    """An int subclass whose own arithmetic is not integer arithmetic (as enum / flag members and pointers have): an operand taken from the context or
+    the constants must be converted to a plain int before the operators see it."""
+
+    def _odd(self, other):
+        return 424242
+
+    __add__ = __radd__ = __sub__ = __rsub__ = __mul__ = __rmul__ = __or__ = __ror__ = __and__ = __rand__ = __xor__ = __rxor__ = _odd
+    __lshift__ = __rlshift__ = __rshift__ = __rrshift__ = __floordiv__ = __rfloordiv__ = __mod__ = __rmod__ = __neg__ = __invert__ = _odd
+
+
 def _tokens(text: str) -> list[str]:
     import re
 
@@ -135,7 +146,14 @@ def corpus() -> list[tuple[str, dict, dict]]:
         out.append((f"(9 {o1} 2) * 3", {}, {}))
         out.append((f"3 * (9 {o1} 2)", {}, {}))
         out.append((f"20 {o1} 3 {o1} 2", {}, {}))  # associativity within one operator
+    # three operators: a low, high, low pattern needs more than the top of the operator stack to be applied (one per precedence level, plus - and /)
+    for o1, o2, o3 in itertools.product(["|", "^", "&", "<<", "-", "*", "/"], repeat=3):
+        out.append((f"29 {o1} 5 {o2} 3 {o3} 2", {}, {}))
+    for u in ("-", "~"):
+        for o1, o2 in itertools.product(["|", "&", "<<", "-", "*"], repeat=2):
+            out.append((f"9 {o1} {u}3 {o2} 2", {}, {}))
     fixed = [
+        ("n + 1", {"n": Odd(3)}, {}), ("K * 2", {}, {"K": Odd(5)}), ("n", {"n": Odd(7)}, {}), ("-n", {"n": Odd(2)}, {}), ("n << 1 | K", {"n": Odd(1)}, {"K": Odd(4)}),
         ("0x10 + 0b101 + 010 + 9", {}, {}), ("0X1f", {}, {}), ("0B11", {}, {}), ("10u + 1", {}, {}), ("10UL * 2", {}, {}), ("7ull", {}, {}), ("1lu", {}, {}), ("0", {}, {}),
         ("00", {}, {}), ("- - 3", {}, {}), ("~~5", {}, {}), ("-~5", {}, {}), ("2 - -3", {}, {}), ("2 - - -3", {}, {}), ("(((4)))", {}, {}), ("2*(3+(4-1))", {}, {}),
         ("n", {"n": 0}, {"n": 5}), ("n", {"n": 4}, {"n": 5}), ("n", {}, {"n": 5}), ("n * 2", {"n": 0}, {"n": 5}), ("_len", {"_len": 3}, {"_len": 9}), ("_len * 1", {"_len": 0}, {"_len": 9}),
@@ -238,7 +256,7 @@ def fold_expression(repo: Repo) -> dict | None:
             got = run(text, context, consts)
             out["cases"] += 1
             if want[0] == "ok":
-                if got[0] != "ok" or got[1] != want[1] or isinstance(got[1], bool):
+                if got[0] != "ok" or got[1] != want[1] or type(got[1]) is not int:
                     out["bad"].append((text, context, consts, f"{got[1]!r}" if got[0] == "ok" else f"raises {got[1]}", f"{want[1]!r}"))
             elif got[0] == "ok":
                 out["bad"].append((text, context, consts, f"{got[1]!r}", f"an error ({want[1]})"))
